@@ -1,6 +1,45 @@
-(** Entry points for C10 (stub: replaced by the property's own entry file). *)
-From Coq Require Import ZArith List.
-From GV Require Import Base.Val.
+(** Entry points for C10 (strict classification: consensus of all matches).
+    taxon   = list of node ids, root first        genome = ((id thr?)... ) dist   with thr? = () | (n)
+    1 consensus (repaired)   2 consensus_v0 (as found)   3 specification (consensus_spec, below_spec)
+    4 classify_strict        5 classify_strict_v0         6 matching_taxon      7 find_matches *)
+From Coq Require Import ZArith List Bool.
+From GV Require Import Base.Val Base.CSem Spec.C10 Model.C10 Entry.Codec.
+Import ListNotations.
 Open Scope Z_scope.
 
-Definition dispatch (op : Z) (a : val) : val := vbad.
+Definition vtaxon (t : taxon) : val := VL (map vnat t).
+Definition to_taxa (a : val) : list taxon := map to_nats (to_list a).
+
+Definition to_node (v : val) : nat * option nat :=
+  match v with
+  | VL [i; th] => (to_nat i, to_opt to_nat th)
+  | _ => (0%nat, None)
+  end.
+Definition to_genome (v : val) : genome :=
+  match v with
+  | VL [lin; d] => (map to_node (to_list lin), to_nat d)
+  | _ => ([], 0%nat)
+  end.
+Definition to_genomes (a : val) : list genome := map to_genome (to_list a).
+
+Definition vcons (r : option taxon * list taxon) : val :=
+  VL [vopt vtaxon (fst r); vlist vtaxon (snd r)].
+
+Definition vbest (b : nat * nat * taxon) : val :=
+  match b with (i, d, t) => VL [vnat i; vnat d; vtaxon t] end.
+
+Definition vstrict (r : strict_result) : val :=
+  VL [vbool (sr_success r); vopt vtaxon (sr_predicted r); vopt vbest (sr_primary r);
+      vlist vtaxon (sr_others r)].
+
+Definition dispatch (op : Z) (a : val) : val :=
+  match op with
+  | 1 => vres vcons (consensus (to_taxa a))
+  | 2 => vres vcons (consensus_v0 (to_taxa a))
+  | 3 => let l := to_taxa a in vcons (consensus_spec l, below_spec (consensus_spec l) l)
+  | 4 => vres vstrict (classify_strict (to_genomes a))
+  | 5 => vres vstrict (classify_strict_v0 (to_genomes a))
+  | 6 => vopt vtaxon (matching_taxon (to_genome a))
+  | 7 => vlist (vpair vtaxon (vlist vnat)) (find_matches (to_genomes a))
+  | _ => vbad
+  end.
